@@ -4,10 +4,71 @@ import json, os
 V = os.path.dirname(os.path.dirname(os.path.abspath(__file__)))
 ENV = "GOFLAGS=-mod=mod GOPROXY=off GOSUMDB=off GOTOOLCHAIN=local"
 # id -> (category, technique, level text, level note, design ref)
+SEQ = "deterministic simulation: seeded single-client operation sequences on the journalling simulated disk under the cooperative scheduler; "
+CRASH = "deterministic simulation with fault injection: every journal position of a seeded run becomes a process-crash image, a seeded subset also power-loss images (unsynced tails cut / torn); the real Open runs on each; "
+CONC = "deterministic simulation: client tasks interleaved by the seeded scheduler at every lock boundary and file call; "
+TB = "Trusts: the simulator (vrewrite import rebinding, vsync lock semantics, vos journal/durability model, vclock), the reference model, tmpfs. Seeded sampling: evidence, not proof."
 CHECKS = {
- "C01": ("exploration", "deterministic simulation: seeded single-client operation sequences on the simulated disk, reference-map oracle after every step",
-         "Seeded exploration of operation sequences x value sizes x configurations (sizes aimed at block boundaries as observed in the I/O journal); every read is compared with a reference map, full dumps every few steps. Sampling, not proof: right for a universal claim over sequences and sizes.",
-         "Trusts the reference map, the rewriting of os/sync/time imports, tmpfs; single client, no faults (fault-free arm kept separate on purpose).", "DESIGN.md section 4, C01"),
+ "C01": ("exploration", SEQ + "reference-map oracle after every step",
+         "Operation sequences x value sizes (aimed at block boundaries as observed in the I/O journal) x configurations; every read and periodic full dumps compared with a reference map.",
+         TB + " Fault-free arm kept separate on purpose.", "DESIGN.md 4 C01"),
+ "C02": ("exploration", SEQ + "restart as a generated step with an independently drawn reader configuration; dump before Close == dump after Open == model",
+         "Histories x end offsets (biased to every distance from a block boundary) x (writer, reader) configuration pairs; Open must not fail or panic after a clean Close.",
+         TB, "DESIGN.md 4 C02"),
+ "C03": ("fault_enumeration", CRASH + "recovered dump must equal a prefix state within the interval the property allows; recovered database must stay usable",
+         "All crash positions of every generated run (process crash) and seeded power-loss cuts (nothing/all/torn/inside a chunk header/1-7 bytes before a block boundary); prefix-interval oracle; usability round after recovery.",
+         TB + " Power loss loses a not-yet-synced tail from the end only; directory operations durable in program order.", "DESIGN.md 4 C03"),
+ "C04": ("fault_enumeration", CRASH + "a batch is one mutation of the prefix oracle, so a partially visible batch equals no allowed state; Sync batches must survive power loss",
+         "All crash positions of batch workloads incl. multi-piece flushes across files; later histories with merges and restarts.",
+         TB + " Same durability model as C03.", "DESIGN.md 4 C04"),
+ "C05": ("exploration", SEQ + "layered overlay model for an open batch; concurrent arm: other clients while a batch is open, histories checked with porcupine",
+         "Batch op sequences x on-disk placements (values in rotated files) x use-after-commit; interleavings against an open batch.",
+         TB, "DESIGN.md 4 C05"),
+ "C06": ("exploration", SEQ + "dumps before/after Merge and after the adopting and following restarts, journal-derived layout oracle; concurrent arm: merger vs one-writer-per-key writers",
+         "Histories x output shapes (fewer/equal/more files) x restarts; interleavings of writes with the merge scan; adoption must actually happen.",
+         TB, "DESIGN.md 4 C06"),
+ "C07": ("fault_enumeration", CRASH + "two levels deep for Merge and adoption: every position of the recovery Open is crashed again, then a clean Open",
+         "All crash positions inside Merge and inside the adopting Open, second crash at every position of the retry, reopen-twice idempotence.",
+         TB + " Process crash only (the property says the process dies).", "DESIGN.md 4 C07"),
+ "C08": ("exploration", CONC + "per-key histories (global event stamps) checked with porcupine against a register model; live dump at quiescence == dump after restart",
+         "2..16 clients on 1..3 shared keys, optional concurrent Merge; random / sticky / PCT-style bounded-preemption schedules.",
+         TB + " porcupine time-outs are inconclusive, never reported.", "DESIGN.md 4 C08"),
+ "C09": ("exploration", CONC + "binary built with the Go race detector; scheduler hand-offs invisible to it, vsync emits exactly sync's annotations, so reports are races of the engine's own synchronisation on replayable schedules; plus panics, exact deadlock, undocumented errors",
+         "All listed public calls from 2..16 tasks, each index type, tiny files forcing rotations.",
+         TB + " TSan shadow memory bounded (4 accesses per word): misses possible per schedule, never false alarms.", "DESIGN.md 4 C09"),
+ "C10": ("exploration", SEQ + "frozen sorted-slice cursor model for iterator sessions (forward seeks only); concurrent arm: snapshot isolation against writers via porcupine",
+         "Key sets x shard layouts x index types x call sequences x direction x prefixes; writes interleaved after creation.",
+         TB, "DESIGN.md 4 C10"),
+ "C11": ("exploration", "deterministic simulation (fault-free, one client) of the exported datafile API on the simulated disk, both back-ends in lock-step; sizes observed at the disk seam",
+         "Start offset x end distance grid (thorough: complete sweep of 32768 start offsets x 19 end distances), varint widths, staged flushes, reopen; round-trip, positions, sizes, logical==physical, byte-identical back-ends.",
+         TB + " No schedule/clock/fault dimension (stated honestly).", "DESIGN.md 4 C11"),
+ "C12": ("fault_enumeration", "deterministic simulation with stored-byte fault injection: all single-bit flips of small trees, seeded header-biased flips, overwrites, truncations, garbage on copies of a closed database; Open/Get/Fold/sequential reader judged",
+         "Right value or error, or a whole earlier prefix state (indistinguishable from a torn tail); never foreign bytes, unknown keys, panics or hangs.",
+         TB + " One known finding (truncation of an older file exactly at a record boundary) is recorded in known_findings.json.", "DESIGN.md 4 C12"),
+ "C13": ("exploration", SEQ + "unsynced-bytes invariants of the journalled disk model evaluated at every return (Always / Threshold / Sync batch / Sync() / Close() / rotation)",
+         "Every SyncStrategy x BytesPerSync x BatchOptions.Sync x FileIOType over rotating, batching, restarting sequences.",
+         TB + " For mmap, flushed means covered by a later msync.", "DESIGN.md 4 C13"),
+ "C14": ("exploration", SEQ + "differential: one program under 2..4 configurations on separate simulated disks with the same simulated clock; transcripts (and bytes when the layout is equal) identical",
+         "Pairs of configurations over index type, shard count, I/O back-end, DataFileSize, sync strategy.",
+         TB + " Merge's return value and Stat sizes are layout and excluded when layout differs.", "DESIGN.md 4 C14"),
+ "C15": ("exploration", SEQ + "hostile caller: one reused key buffer and one reused value buffer poisoned after every return, canaries, kept Get results; reference map keeps running",
+         "All index types, repeated Batch.Put on one key, arbitrary later Puts; sync.Pool replaced by a deterministic LIFO so pool-mediated aliasing reproduces.",
+         TB, "DESIGN.md 4 C15"),
+ "C16": ("exploration", CONC + "in-process opener tasks plus one real child process driven in lock-step; Open/Close outcomes checked with porcupine against a single-holder lock model; a janitor damages/repairs an older file so Opens fail after taking the lock",
+         "Interleavings of Open/Close/failing Open by several goroutines and another process; rejected Opens leave journal / directory hash unchanged; directory openable afterwards.",
+         TB + " flock(2) semantics equal within and across processes; GC off during a run.", "DESIGN.md 4 C16"),
+ "C17": ("exploration", SEQ + "Stat recomputed at every step by scanning the files with the package's own reader; size-limit rule per file",
+         "Histories with overwrites, deletes, batches, rotations, merges, restarts.",
+         TB, "DESIGN.md 4 C17"),
+ "C18": ("exploration", SEQ + "after every successful Merge the hint file is decoded and compared entry by entry with a scan of the merged files; hint-path Open vs scan-path Open on copies",
+         "Merges x configurations x both I/O types x multi-file outputs.",
+         TB, "DESIGN.md 4 C18"),
+ "C19": ("exploration", SEQ + "data-type layer under the simulated clock (TTL boundaries hit at expiry-1ns/expiry/expiry+1ns) with restarts; normalised replies vs an abstract-type model",
+         "Command sequences over 1..4 keys mixing all five types, deletions, re-creations, restarts.",
+         TB + " Documented relaxations: emptied collection keeps its type; expired-undeleted string may answer either way to non-string commands.", "DESIGN.md 4 C19"),
+ "C20": ("exploration", SEQ + "Backup as a generated step, the copy opened while the source stays open; concurrent arm: backup vs writers, copy content as reads at the Backup interval (porcupine)",
+         "Histories x both I/O types x repeated backups x large Puts right after an mmap backup.",
+         TB, "DESIGN.md 4 C20"),
 }
 PENDING = {}
 
